@@ -4,9 +4,12 @@ import TallyProofs.Lemmas.RootCloseProgress
 # C08 — the root's `Close` is a barrier: final report, flush, reporter close, then silence
 
 Model: `Tally.RootClose` (any number of cells, of `Close` calls and of recorders, with or without a
-report loop, closable reporter or not, any interleaving).  Every theorem is over *every* event list
-accepted by the model.  "The winning call has returned" is `s.closers w = .returned r` (only the call
-whose CAS succeeded can reach that pc; calls whose CAS failed end in `returnedNil`).
+report loop, closable reporter or not, any interleaving, and — the registry being Go maps — any visiting
+order of the cells, chosen afresh in every pass: the events `Ev.loop c` / `Ev.closer t c` carry the
+choice `c`, which is read only at a `pick` pc).  Every theorem is over *every* event list accepted by
+the model, hence over every visiting order; no theorem has a hypothesis about the order.  "The winning
+call has returned" is `s.closers w = .returned r` (only the call whose CAS succeeded can reach that pc;
+calls whose CAS failed end in `returnedNil`).
 
 Scope of the statements (what the model does not say):
 * the barrier is for the winning caller (`concurrent_close_returns_early`, known limitation D5b);
@@ -50,7 +53,7 @@ theorem close_barrier (k : Nat) (hl cl : Bool) (er : Option Nat) (es : List Ev) 
   have hw0 : wpc s = .returned r := by rw [wpc_of_winner hw, hret]
   have hex : s.loop = .exited := hc.loopEx (by rw [hw0]; simp [ph])
   have hclean : NoPre s.cells.flatten := by
-    have := ht.clean; rw [hw0] at this; exact CleanBelow.flatten this
+    have := ht.clean; rw [hw0] at this; exact CleanOn.flatten this
   have hpend : ∀ t, (s.closers t).pend = [] := by
     intro t
     by_cases htw : t = w
@@ -118,14 +121,15 @@ theorem silent_after_close (k : Nat) (hl cl : Bool) (er : Option Nat) (es : List
 
 /-! ## idempotence -/
 
-/-- the CAS of `Close` never blocks -/
-theorem cas_enabled (s : State) (t : Nat) (hpc : s.closers t = .start) : (step s (.closer t)).isSome = true := by
+/-- the CAS of `Close` never blocks (the choice is irrelevant there) -/
+theorem cas_enabled (s : State) (t : Nat) (hpc : s.closers t = .start) (c : Nat) :
+    (step s (.closer t c)).isSome = true := by
   simp only [step, hpc]; split <;> rfl
 
 /-- a `Close` call whose CAS fails (the flag is already set) returns nil at once and touches nothing:
 not the log, not the `done` channel, not the cells, not the loop, not any other call -/
 theorem close_idempotent_step (s s' : State) (t : Nat) (hclosed : s.closed = true) (hpc : s.closers t = .start)
-    (hs : step s (.closer t) = some s') :
+    (c : Nat) (hs : step s (.closer t c) = some s') :
     s'.closers t = .returnedNil ∧ s'.returns = (t, none) :: s.returns ∧
     s'.log = s.log ∧ s'.doneClosed = s.doneClosed ∧ s'.closed = s.closed ∧ s'.purged = s.purged ∧
     s'.cells = s.cells ∧ s'.dropped = s.dropped ∧ s'.issued = s.issued ∧ s'.loop = s.loop ∧
@@ -137,26 +141,27 @@ theorem close_idempotent_step (s s' : State) (t : Nat) (hclosed : s.closed = tru
 /-- **C08, idempotence.**  In every reachable state in which the flag is set — in particular after the
 first `Close` has returned — a further `Close` call is enabled, returns nil, and delivers nothing. -/
 theorem close_idempotent (k : Nat) (hl cl : Bool) (er : Option Nat) (es : List Ev) (s : State)
-    (_hr : run (init k hl cl er) es = some s) (t : Nat) (hclosed : s.closed = true) (hpc : s.closers t = .start) :
-    ∃ s', step s (.closer t) = some s' ∧ s'.closers t = .returnedNil ∧ s'.log = s.log ∧
+    (_hr : run (init k hl cl er) es = some s) (t : Nat) (hclosed : s.closed = true) (hpc : s.closers t = .start)
+    (c : Nat) :
+    ∃ s', step s (.closer t c) = some s' ∧ s'.closers t = .returnedNil ∧ s'.log = s.log ∧
       s'.doneClosed = s.doneClosed ∧ s'.cells = s.cells ∧ s'.dropped = s.dropped ∧ s'.loop = s.loop := by
-  have hen := cas_enabled s t hpc
-  cases hs : step s (.closer t) with
+  have hen := cas_enabled s t hpc c
+  cases hs : step s (.closer t c) with
   | none => rw [hs] at hen; cases hen
   | some s' =>
-    obtain ⟨a, _, b, c, _, _, d, e, _, f, _, _⟩ := close_idempotent_step s s' t hclosed hpc hs
-    exact ⟨s', rfl, a, b, c, d, e, f⟩
+    obtain ⟨a, _, b, c', _, _, d, e, _, f, _, _⟩ := close_idempotent_step s s' t hclosed hpc c hs
+    exact ⟨s', rfl, a, b, c', d, e, f⟩
 
 /-- a second call after the first returned: same, and the first caller's result stays -/
 theorem second_close_returns_nil (k : Nat) (hl cl : Bool) (er : Option Nat) (es : List Ev) (s : State)
     (hr : run (init k hl cl er) es = some s) (w : Nat) (r : Option Nat) (hret : s.closers w = .returned r)
-    (t : Nat) (hpc : s.closers t = .start) :
-    ∃ s', step s (.closer t) = some s' ∧ s'.closers t = .returnedNil ∧ s'.log = s.log ∧
+    (t : Nat) (hpc : s.closers t = .start) (c : Nat) :
+    ∃ s', step s (.closer t c) = some s' ∧ s'.closers t = .returnedNil ∧ s'.log = s.log ∧
       s'.closers w = .returned r := by
   have hc := (reachable_inv k hl cl er es s hr).1
   have hw := hc.winner_of w (by rw [hret]; simp [ph])
   have hclosed : s.closed = true := by rw [hc.closed_iff, hw]; rfl
-  obtain ⟨s', hs, a, b, _⟩ := close_idempotent k hl cl er es s hr t hclosed hpc
+  obtain ⟨s', hs, a, b, _⟩ := close_idempotent k hl cl er es s hr t hclosed hpc c
   exact ⟨s', hs, a, b, (silent_step s s' _ hc w r hret hs).2.1⟩
 
 /-- every call other than the winner that has returned, returned nil -/
@@ -192,7 +197,7 @@ theorem reporter_error_returned (k : Nat) (hl cl : Bool) (er : Option Nat) (es :
 
 /-- the step that produces the result is the reporter-close step itself -/
 theorem reporter_close_step (s s' : State) (t : Nat) (hpc : s.closers t = .reporterClose)
-    (hs : step s (.closer t) = some s') :
+    (c : Nat) (hs : step s (.closer t c) = some s') :
     (s.closable = true → s'.log = .reporterClose :: s.log ∧ s'.closers t = .returned s.err) ∧
     (s.closable = false → s'.log = s.log ∧ s'.closers t = .returned none) := by
   simp only [step, hpc] at hs
@@ -214,39 +219,50 @@ theorem scopes_after_close_inert (s s' : State) (c : Nat) (hclosed : s.closed = 
 
 /-- **C08, no deadlock.**  In every reachable state:
 * a call at its CAS can always take it;
-* a call inside `Close` can take its next step, except the winner at `wg.Wait()` while the loop
-  goroutine is still alive — and then the loop goroutine has an enabled step (`done` is closed, so
-  the `select` can take that case as soon as the loop is back there; inside a pass it can always go on);
+* a call inside `Close` can take its next step (inside the range loops of its final pass: with a
+  suitable choice — any unvisited cell, or "the loops are over" when all are visited, see
+  `visiting_order_arbitrary`), except the winner at `wg.Wait()` while the loop goroutine is still
+  alive — and then the loop goroutine has an enabled step (`done` is closed, so the `select` can take
+  that case as soon as the loop is back there; inside a pass it can always go on);
 * the loop goroutine, while alive, always has an enabled step. -/
 theorem no_deadlock (k : Nat) (hl cl : Bool) (er : Option Nat) (es : List Ev) (s : State)
     (hr : run (init k hl cl er) es = some s) :
-    (∀ t, s.closers t = .start → (step s (.closer t)).isSome = true) ∧
+    (∀ t, s.closers t = .start → ∀ c, (step s (.closer t c)).isSome = true) ∧
     (∀ t, (s.closers t).midCall = true →
-      (step s (.closer t)).isSome = true ∨
+      (∃ c, (step s (.closer t c)).isSome = true) ∨
       (s.closers t = .doneClosedPc ∧ s.loop ≠ .exited ∧ s.doneClosed = true ∧
-        ((step s .exit).isSome = true ∨ (step s .loop).isSome = true))) ∧
-    (s.loop ≠ .exited → (step s .tick).isSome = true ∨ (step s .loop).isSome = true) := by
+        ((step s .exit).isSome = true ∨ ∃ c, (step s (.loop c)).isSome = true))) ∧
+    (s.loop ≠ .exited → (step s .tick).isSome = true ∨ ∃ c, (step s (.loop c)).isSome = true) := by
   have hc := (reachable_inv k hl cl er es s hr).1
-  have hloop : s.loop ≠ .exited → (step s .tick).isSome = true ∨ (step s .loop).isSome = true := by
+  have hpassL : ∀ p, s.loop = .pass p → ∃ c, (step s (.loop c)).isSome = true := by
+    intro p hlp
+    obtain ⟨c, s1, oq, hq⟩ := passStep_enabled s p
+    refine ⟨c, ?_⟩
+    simp only [step, hlp, hq]; cases oq <;> rfl
+  have hloop : s.loop ≠ .exited → (step s .tick).isSome = true ∨ ∃ c, (step s (.loop c)).isSome = true := by
     intro hne
     cases hlp : s.loop with
     | exited => exact absurd hlp hne
     | waiting => left; simp [step, hlp]
-    | ticked => right; simp only [step, hlp]; split <;> rfl
-    | pass p => right; simp only [step, hlp]; split <;> rfl
-  refine ⟨fun t hpc => cas_enabled s t hpc, ?_, hloop⟩
+    | ticked => right; refine ⟨0, ?_⟩; simp only [step, hlp]; split <;> rfl
+    | pass p => right; exact hpassL p hlp
+  refine ⟨fun t hpc c => cas_enabled s t hpc c, ?_, hloop⟩
   intro t hmid
   cases hp : s.closers t with
   | start => rw [hp] at hmid; simp [CPc.midCall] at hmid
   | returned r => rw [hp] at hmid; simp [CPc.midCall] at hmid
   | returnedNil => rw [hp] at hmid; simp [CPc.midCall] at hmid
-  | won => left; simp [step, hp]
-  | purgePc => left; simp [step, hp]
-  | reporterClose => left; simp only [step, hp]; split <;> rfl
-  | pass p => left; simp only [step, hp]; split <;> rfl
+  | won => left; exact ⟨0, by simp [step, hp]⟩
+  | purgePc => left; exact ⟨0, by simp [step, hp]⟩
+  | reporterClose => left; refine ⟨0, ?_⟩; simp only [step, hp]; split <;> rfl
+  | pass p =>
+    left
+    obtain ⟨c, s1, oq, hq⟩ := passStep_enabled s p
+    refine ⟨c, ?_⟩
+    simp only [step, hp, hq]; cases oq <;> rfl
   | doneClosedPc =>
     by_cases hex : s.loop = .exited
-    · left; simp [step, hp, hex]
+    · left; exact ⟨0, by simp [step, hp, hex]⟩
     · right
       have hw := hc.winner_of t (by rw [hp]; simp [ph])
       have hdone : s.doneClosed = true := by
@@ -255,8 +271,72 @@ theorem no_deadlock (k : Nat) (hl cl : Bool) (er : Option Nat) (es : List Ev) (s
       cases hlp : s.loop with
       | exited => exact absurd hlp hex
       | waiting => left; simp [step, hlp, hdone]
-      | ticked => right; simp only [step, hlp]; split <;> rfl
-      | pass p => right; simp only [step, hlp]; split <;> rfl
+      | ticked => right; refine ⟨0, ?_⟩; simp only [step, hlp]; split <;> rfl
+      | pass p => right; exact hpassL p hlp
+
+/-- **every visiting order is possible, and nothing else.**  Inside the range loops (`pick vis`) a pass
+may visit next *any* cell it has not visited yet; it cannot visit a cell twice; and it can leave the
+loops (any choice `≥ K`) exactly when every cell has been visited.  (`passStep` is the step of whichever
+thread runs the pass: see `loop_enabled_iff` / `closer_enabled_iff`.) -/
+theorem visiting_order_arbitrary (s : State) (vis : List Nat) (c : Nat) :
+    (c < s.cells.length → c ∉ vis → (passStep s c (.pick vis)).isSome = true) ∧
+    (c < s.cells.length → c ∈ vis → passStep s c (.pick vis) = none) ∧
+    (s.cells.length ≤ c → ((passStep s c (.pick vis)).isSome = true ↔ ∀ j, j < s.cells.length → j ∈ vis)) := by
+  refine ⟨?_, ?_, ?_⟩
+  · intro hc hv
+    obtain ⟨s1, q, h⟩ := passStep_pick_cell s vis c hc hv
+    rw [h]; rfl
+  · intro hc hv
+    simp only [passStep, hc, hv, if_true]
+  · intro hc
+    constructor
+    · intro h
+      cases hq : passStep s c (.pick vis) with
+      | none => rw [hq] at h; cases h
+      | some r =>
+        obtain ⟨s1, oq⟩ := r
+        cases passStep_rel hq with
+        | take vis x r hc' _ _ => omega
+        | skip vis hc' _ _ => omega
+        | over vis _ hall => exact hall
+    · intro hall
+      rw [passStep_pick_over s vis c hc hall]; rfl
+
+/-- the loop inside a pass is enabled with choice `c` iff the pass step is -/
+theorem loop_enabled_iff (s : State) (p : PassPc) (hl : s.loop = .pass p) (c : Nat) :
+    (step s (.loop c)).isSome = (passStep s c p).isSome := by
+  simp only [step, hl]
+  cases passStep s c p with
+  | none => rfl
+  | some r => obtain ⟨s1, oq⟩ := r; cases oq <;> rfl
+
+/-- a `Close` call inside its final pass is enabled with choice `c` iff the pass step is -/
+theorem closer_enabled_iff (s : State) (t : Nat) (p : PassPc) (hpc : s.closers t = .pass p) (c : Nat) :
+    (step s (.closer t c)).isSome = (passStep s c p).isSome := by
+  simp only [step, hpc]
+  cases passStep s c p with
+  | none => rfl
+  | some r => obtain ⟨s1, oq⟩ := r; cases oq <;> rfl
+
+/-- outside the range loops the choice carried by the event is irrelevant -/
+theorem choice_irrelevant_outside_pick (s : State) (c c' : Nat) :
+    ((∀ vis, s.loop ≠ .pass (.pick vis)) → step s (.loop c) = step s (.loop c')) ∧
+    (∀ t, (∀ vis, s.closers t ≠ .pass (.pick vis)) → step s (.closer t c) = step s (.closer t c')) := by
+  constructor
+  · intro h
+    cases hl : s.loop with
+    | pass p =>
+      have : passStep s c p = passStep s c' p :=
+        passStep_choice_irrelevant s p (fun vis e => h vis (by rw [hl, e])) c c'
+      simp only [step, hl, this]
+    | _ => simp only [step, hl]
+  · intro t h
+    cases hp : s.closers t with
+    | pass p =>
+      have : passStep s c p = passStep s c' p :=
+        passStep_choice_irrelevant s p (fun vis e => h vis (by rw [hp, e])) c c'
+      simp only [step, hp, this]
+    | _ => simp only [step, hp]
 
 /-- **C08, Close can always complete.**  From every reachable state in which the winner is inside
 `Close` there is a continuation (the winner's own steps, and at its wait the loop's steps up to taking
@@ -274,9 +354,9 @@ stated (they are quantified over `hasLoop`; instantiated here). -/
 theorem close_without_interval (k : Nat) (cl : Bool) (er : Option Nat) (es : List Ev) (s : State)
     (hr : run (init k false cl er) es = some s) :
     -- there is no loop goroutine, ever
-    (s.loop = .exited ∧ step s .tick = none ∧ step s .exit = none ∧ step s .loop = none) ∧
+    (s.loop = .exited ∧ step s .tick = none ∧ step s .exit = none ∧ ∀ c, step s (.loop c) = none) ∧
     -- the wait never blocks
-    (∀ t, s.closers t = .doneClosedPc → (step s (.closer t)).isSome = true) ∧
+    (∀ t, s.closers t = .doneClosedPc → ∀ c, (step s (.closer t c)).isSome = true) ∧
     -- barrier, silence and result, as with a loop
     (∀ w r, s.closers w = .returned r →
       (∀ tok ∈ s.issued, tok.pre = true → (delivered s.log).count tok = 1) ∧
@@ -289,8 +369,8 @@ theorem close_without_interval (k : Nat) (cl : Bool) (er : Option Nat) (es : Lis
   have hc := (reachable_inv k false cl er es s hr).1
   obtain ⟨hhl, _, _, _⟩ := reachable_params k false cl er es s hr
   have hex : s.loop = .exited := hc.noLoop hhl
-  refine ⟨⟨hex, by simp [step, hex], by simp [step, hex], by simp [step, hex]⟩, ?_, ?_⟩
-  · intro t hp; simp [step, hp, hex]
+  refine ⟨⟨hex, by simp [step, hex], by simp [step, hex], fun c => by simp [step, hex]⟩, ?_, ?_⟩
+  · intro t hp c; simp [step, hp, hex]
   · intro w r hret
     obtain ⟨a, b, _, _, c, d, _, e⟩ := close_barrier k false cl er es s hr w r hret
     exact ⟨a, b, c, d, e, reporter_error_returned k false cl er es s hr w r hret,
@@ -303,7 +383,7 @@ CAS fails returns nil at once, possibly while the winner has not even closed `do
 finished its final report.  Here call 1 has returned nil while call 0 sits right after its CAS, the
 `pre` token is still in its cell and the reporter has seen nothing. -/
 theorem concurrent_close_returns_early :
-    (run (init 1 false true) [.record 0, .closer 0, .closer 1]).map (·.view 2) = some
+    (run (init 1 false true) [.record 0, .closer 0 0, .closer 1 0]).map (·.view 2) = some
       { cells := [[{ id := 0, cell := 0, pre := true }]], closed := true, doneClosed := false, purged := false,
         loop := .exited, closers := [.won, .returnedNil], log := [], dropped := [], returns := [(1, none)] } := by
   decide
@@ -311,10 +391,11 @@ theorem concurrent_close_returns_early :
 /-- a schedule of the pinned code: a periodic pass is part-way through the registry (past cell 0), a
 value is recorded in cell 0 (before Close), Close sets the flag and closes `done`, the periodic pass
 reaches its end, finds the root closed and purges; Close's own pass finds nothing.  The `pre` token
-ends in `dropped`; the reporter never sees it. -/
+ends in `dropped`; the reporter never sees it.  (Both passes happen to visit in the order 0, 1; the
+last argument of `loop` / `closer` is the choice, read only at a `pick` pc: a cell, or 2 = "loops over".) -/
 def legacyLossSchedule : List Ev :=
-  [.tick, .loop, .loop, .loop, .record 0, .closer 0, .closer 0, .loop, .loop,
-   .closer 0, .closer 0, .closer 0, .closer 0, .closer 0, .closer 0, .closer 0]
+  [.tick, .loop 0, .loop 0, .loop 0, .record 0, .closer 0 0, .closer 0 0, .loop 1, .loop 2,
+   .closer 0 0, .closer 0 0, .closer 0 0, .closer 0 1, .closer 0 2, .closer 0 0, .closer 0 0]
 
 theorem legacy_close_loses_increments_counterexample :
     (Legacy.run (init 2 true true) legacyLossSchedule).map
@@ -328,15 +409,15 @@ example : run (init 2 true true) legacyLossSchedule = none := by decide
 /-- a schedule of the pinned code: the periodic pass is blocked inside a slow reporter call holding
 what it swapped out; Close runs to completion (final pass, flush, reporter closed, returned). -/
 def legacyLateSchedule : List Ev :=
-  [.record 0, .tick, .loop, .loop, .loop,
-   .closer 0, .closer 0, .closer 0, .closer 0, .closer 0, .closer 0, .closer 0, .closer 0]
+  [.record 0, .tick, .loop 0, .loop 0, .loop 0,
+   .closer 0 0, .closer 0 0, .closer 0 0, .closer 0 0, .closer 0 0, .closer 0 1, .closer 0 0, .closer 0 0]
 
 /-- … then the periodic pass goes on: a `deliver` and a `flush` reach the reporter after `Close` has
 returned and after the reporter was closed. -/
 theorem legacy_report_after_close_counterexample :
     (Legacy.run (init 1 true true) legacyLateSchedule).map (fun s => (s.closers 0, s.log))
       = some (.returned none, [.reporterClose, .flush, .internal, .internal]) ∧
-    (Legacy.run (init 1 true true) (legacyLateSchedule ++ [.loop, .loop, .loop])).map (fun s => (s.closers 0, s.log))
+    (Legacy.run (init 1 true true) (legacyLateSchedule ++ [.loop 0, .loop 1, .loop 0])).map (fun s => (s.closers 0, s.log))
       = some (.returned none, [.flush, .deliver [{ id := 0, cell := 0, pre := true }],
           .reporterClose, .flush, .internal, .internal]) := by decide
 
@@ -351,9 +432,9 @@ call 0 closes `done`; call 1 loses the CAS and returns nil; call 0 is blocked in
 finishes (it delivers tokens 0, 1 and the late token 3), the loop takes the `done` case; call 0 runs
 its final pass (delivers token 2), flushes, purges, closes the reporter and returns 7. -/
 def demo : List Ev :=
-  [.record 0, .record 1, .tick, .loop, .loop, .loop, .record 0, .closer 0, .record 1, .closer 0, .closer 1,
-   .loop, .loop, .loop, .loop, .loop, .exit,
-   .closer 0, .closer 0, .closer 0, .closer 0, .closer 0, .closer 0, .closer 0, .closer 0, .closer 0]
+  [.record 0, .record 1, .tick, .loop 0, .loop 0, .loop 0, .record 0, .closer 0 0, .record 1, .closer 0 0, .closer 1 0,
+   .loop 0, .loop 1, .loop 0, .loop 2, .loop 0, .exit,
+   .closer 0 0, .closer 0 0, .closer 0 0, .closer 0 0, .closer 0 1, .closer 0 2, .closer 0 0, .closer 0 0, .closer 0 0]
 
 /-- the hypotheses of `close_barrier` / `silent_after_close` / `reporter_error_returned` are satisfiable -/
 example :
@@ -375,28 +456,28 @@ example :
 inside the reporter call; the loop's step is enabled -/
 example :
     (run (init 2 true true (some 7)) (demo.take 11)).map
-        (fun s => (s.closers 0, (step s (.closer 0)).isSome, s.loop, (step s .loop).isSome, (step s .exit).isSome))
-      = some (.doneClosedPc, false, .pass (.deliver 0 [{ id := 0, cell := 0, pre := true }]), true, false) := by
+        (fun s => (s.closers 0, (step s (.closer 0 0)).isSome, s.loop, (step s (.loop 0)).isSome, (step s .exit).isSome))
+      = some (.doneClosedPc, false, .pass (.deliver 0 [{ id := 0, cell := 0, pre := true }] [0]), true, false) := by
   decide
 
 /-- silence and idempotence after the return: records on old handles, a third `Close`, a `Subscope`;
 the log is what it was, the late records are dropped, the late `Close` returned nil, the scope is inert;
 and the loop's events are not enabled any more -/
 example :
-    (run (init 2 true true (some 7)) (demo ++ [.record 0, .closer 2, .record 1, .obtain 0])).map
+    (run (init 2 true true (some 7)) (demo ++ [.record 0, .closer 2 0, .record 1, .obtain 0])).map
         (fun s => (s.log.length, s.closers 2, s.dropped.map (·.pre), s.closers 0))
       = some (8, .returnedNil, [false, false], .returned (some 7)) ∧
-    (run (init 2 true true (some 7)) (demo ++ [.record 0, .closer 2, .record 1, .obtain 0])).map (·.handed)
+    (run (init 2 true true (some 7)) (demo ++ [.record 0, .closer 2 0, .record 1, .obtain 0])).map (·.handed)
       = some [none] ∧
     run (init 2 true true (some 7)) (demo ++ [.tick]) = none ∧
-    run (init 2 true true (some 7)) (demo ++ [.loop]) = none ∧
-    run (init 2 true true (some 7)) (demo ++ [.closer 0]) = none := by decide
+    (∀ c, c < 3 → run (init 2 true true (some 7)) (demo ++ [.loop c]) = none) ∧
+    (∀ c, c < 3 → run (init 2 true true (some 7)) (demo ++ [.closer 0 c]) = none) := by decide
 
 /-- without an interval, not closable: Close goes straight through (no wait), the log ends with the
 flush, there is no reporter close and the result is nil -/
 example :
-    (run (init 1 false false (some 7)) [.record 0, .closer 0, .closer 0, .closer 0, .closer 0, .closer 0,
-        .closer 0, .closer 0, .closer 0, .closer 0, .closer 0]).map (·.view 1) = some
+    (run (init 1 false false (some 7)) [.record 0, .closer 0 0, .closer 0 0, .closer 0 0, .closer 0 0, .closer 0 0,
+        .closer 0 0, .closer 0 1, .closer 0 0, .closer 0 0, .closer 0 0]).map (·.view 1) = some
       { cells := [[]], closed := true, doneClosed := true, purged := true, loop := .exited,
         closers := [.returned none],
         log := [.flush, .deliver [{ id := 0, cell := 0, pre := true }], .internal],
@@ -404,13 +485,54 @@ example :
 
 /-- Close called before the first tick, and between two ticks (a complete periodic pass first) -/
 example :
-    (run (init 1 true true) [.record 0, .closer 0, .closer 0, .exit, .closer 0, .closer 0, .closer 0, .closer 0,
-        .closer 0, .closer 0, .closer 0, .closer 0]).map (fun s => (s.closers 0, delivered s.log, s.loop))
+    (run (init 1 true true) [.record 0, .closer 0 0, .closer 0 0, .exit, .closer 0 0, .closer 0 0, .closer 0 0, .closer 0 0,
+        .closer 0 1, .closer 0 0, .closer 0 0, .closer 0 0]).map (fun s => (s.closers 0, delivered s.log, s.loop))
       = some (.returned none, [{ id := 0, cell := 0, pre := true }], .exited) ∧
-    (run (init 1 true true) [.record 0, .tick, .loop, .loop, .loop, .loop, .loop, .loop, .record 0,
-        .closer 0, .tick, .loop, .closer 0, .exit, .closer 0, .closer 0, .closer 0, .closer 0,
-        .closer 0, .closer 0, .closer 0, .closer 0]).map (fun s => (s.closers 0, delivered s.log, s.loop))
+    (run (init 1 true true) [.record 0, .tick, .loop 0, .loop 0, .loop 0, .loop 0, .loop 1, .loop 0, .record 0,
+        .closer 0 0, .tick, .loop 0, .closer 0 0, .exit, .closer 0 0, .closer 0 0, .closer 0 0, .closer 0 0,
+        .closer 0 1, .closer 0 0, .closer 0 0, .closer 0 0]).map (fun s => (s.closers 0, delivered s.log, s.loop))
       = some (.returned none, [{ id := 1, cell := 0, pre := true }, { id := 0, cell := 0, pre := true }], .exited) := by
   decide
+
+/-! ### non-vacuity for an arbitrary visiting order
+
+Three cells, a loop, a closable reporter whose `Close` returns error 7.  The periodic pass visits the
+cells in the order 1, 2, 0 (a value is recorded in cell 1 after its visit); two more values are recorded,
+call 0 wins the CAS, closes `done`, the loop takes the `done` case; the final pass of `Close` visits in
+the order 2, 0, 1 — a different order — and while it is inside the reporter call for cell 2 a value is
+recorded in cell 2 (after Close was called: not `pre`; the purge drops it); then flush, purge, reporter
+close, return 7. -/
+def shuffled : List Ev :=
+  [.record 0, .record 1, .record 2, .tick, .loop 0, .loop 0,
+   .loop 1, .record 1, .loop 0, .loop 2, .loop 0, .loop 0, .loop 0, .loop 3, .loop 0,
+   .record 2, .record 0, .closer 0 0, .closer 0 0, .exit, .closer 0 0, .closer 0 0,
+   .closer 0 2, .record 2, .closer 0 0, .closer 0 0, .closer 0 0, .closer 0 1, .closer 0 0, .closer 0 3,
+   .closer 0 0, .closer 0 0, .closer 0 0]
+
+/-- the hypotheses of `close_barrier` are met by a run whose passes visit in the non-index orders
+1, 2, 0 and 2, 0, 1; the conclusion can be read off: the six `pre` tokens are delivered once each, the
+log ends with flush and reporter close, the late token is dropped -/
+example :
+    (run (init 3 true true (some 7)) shuffled).map (·.view 1) = some
+      { cells := [[], [], []], closed := true, doneClosed := true, purged := true, loop := .exited,
+        closers := [.returned (some 7)],
+        log := [.reporterClose, .flush,
+                .deliver [{ id := 3, cell := 1, pre := true }],
+                .deliver [{ id := 5, cell := 0, pre := true }],
+                .deliver [{ id := 4, cell := 2, pre := true }], .internal, .flush,
+                .deliver [{ id := 0, cell := 0, pre := true }],
+                .deliver [{ id := 2, cell := 2, pre := true }],
+                .deliver [{ id := 1, cell := 1, pre := true }], .internal],
+        dropped := [{ id := 6, cell := 2, pre := false }], returns := [(0, some 7)] } ∧
+    (run (init 3 true true (some 7)) shuffled).map
+        (fun s => (s.issued.filter (·.pre)).map fun tok => (tok.id, (delivered s.log).count tok))
+      = some [(5, 1), (4, 1), (3, 1), (2, 1), (1, 1), (0, 1)] := by decide
+
+/-- inside that final pass, after cell 2 has been visited (`pick [2]`): the pass may go on with cell 0 or
+with cell 1, but can neither visit cell 2 again nor leave the range loops yet -/
+example :
+    (run (init 3 true true (some 7)) (shuffled.take 25)).map
+        (fun s => (s.closers 0, (List.range 5).map fun c => (step s (.closer 0 c)).isSome))
+      = some (.pass (.pick [2]), [true, true, false, false, false]) := by decide
 
 end Tally.Props.C08
